@@ -19,7 +19,7 @@ RULE = ("per (function, dtype): W1 uniformly random bit patterns; W2 components 
 ASSUME = ["mpmath real primitives converge with precision; Ziv agreement at two precisions away from rounding boundaries; uncertifiable points are counted and excluded",
           "on a branch cut (zero component) the value of either side is accepted; limits at infinite inputs follow the numeric-limit construction of vf.mporacle (path-dependent components accept anything)",
           "rate claims are decided by a Chernoff-bounded one-sided binomial test at alpha=1e-6 over the whole run"]
-REQUIRE = ["evaluations", "judged:W1", "judged:W2", "judged:W3", "crossval:checked"]
+REQUIRE = ["evaluations", "judged:W1", "judged:W2", "judged:W3", "judged:W5", "crossval:checked"]
 
 TARGET = dict(sqrt=4, log1p=4)
 HARD = 16
@@ -122,6 +122,23 @@ def hostile(rng, fdt, n):
     bad = numpy.isnan(x) | numpy.isnan(y)
     x[bad] = 1.5
     y[bad] = -0.75
+    return x, y
+
+
+def bands(rng, fdt, n):
+    """W5: both components inside a band (a factor 2^-3 .. 2^0.5) around a threshold - the same threshold for both (comparable magnitudes: where
+    x*x + y*y, hypot(x, y), x*y just over- or underflow although each component is still fine) or two different ones"""
+    fi = numpy.finfo(fdt)
+    big, sq = float(fi.max), float(numpy.sqrt(fdt(fi.max)))
+    T = numpy.array([big, big / 2, sq, sq * 2, sq / 8, big ** 0.25, 1 / float(fi.epsneg), (1 / float(fi.epsneg)) ** 2, float(numpy.log(fdt(fi.max))), 2 * float(numpy.log(fdt(fi.max))), 1.0,
+                     float(numpy.sqrt(fdt(fi.eps))), float(fi.eps), float(numpy.sqrt(fdt(fi.smallest_normal))), float(fi.smallest_normal) ** 0.25, float(fi.smallest_normal) * 4], dtype=numpy.float64)
+    T = T[T <= big]
+    i = rng.integers(0, T.size, size=n)
+    j = numpy.where(rng.random(n) < 0.65, i, rng.integers(0, T.size, size=n))
+    with numpy.errstate(all="ignore"):
+        x = (T[i] * 2.0 ** rng.uniform(-3, 0.5, size=n) * rng.choice([-1, 1], size=n))
+        y = (T[j] * 2.0 ** rng.uniform(-3, 0.5, size=n) * rng.choice([-1, 1], size=n))
+        x, y = numpy.clip(x, -big, big).astype(fdt), numpy.clip(y, -big, big).astype(fdt)
     return x, y
 
 
@@ -257,6 +274,9 @@ def task_unit(params, rec):
             local_search(rec, unit, x[worst[1]], y[worst[1]], rng, params["search"])
         if params["shard"] == 0:
             rec.sample(dict(function=fname, dtype=params["cdtype"], workload="W3", z=[x[0], y[0]], z2=[x[n3 // 2 + 1], y[n3 // 2 + 1]]))
+    n5 = params.get("n5", 0)
+    if n5:
+        run_workload(rec, unit, "W5", *bands(rng, fdt, n5))
     # select-arm coverage
     cov = unit.cov
     nsel = graph.count_selects(unit.g)
@@ -280,10 +300,10 @@ def plan(tier, seed):
     for c in ("complex64", "complex128"):
         for fn in graph.COMPLEX_FUNCS:
             if tier == "quick":
-                t.append(("unit", dict(function=fn, cdtype=c, seed=seed, shard=0, n1=300, n2=300, n3=900, search=2)))
+                t.append(("unit", dict(function=fn, cdtype=c, seed=seed, shard=0, n1=300, n2=300, n3=900, n5=500, search=2)))
             else:
                 for s in range(4):
-                    t.append(("unit", dict(function=fn, cdtype=c, seed=seed, shard=s, n1=5000, n2=5000, n3=5000, search=12)))
+                    t.append(("unit", dict(function=fn, cdtype=c, seed=seed, shard=s, n1=5000, n2=5000, n3=5000, n5=4000, search=12)))
     return t
 
 
